@@ -6,8 +6,8 @@ import json, sys, os
 CLAIMED = {
  "C01": ("exploration",
          "exhaustive small-scope enumeration of layouts x cached subsets x keys against a brute-force containment oracle",
-         "Layer 1: for every layout of a table with <=2 (thorough <=3) split points over a 5-6 symbol alphabet, every subset of its regions cached, six neighbouring tables (prefix names, namespaces) and every key of length <=3 (plus keys around the 32 KiB search-key truncation), the real cache lookup is compared with the unique containing cached region of the same table (else: must go to meta). 1.6M cases quick.",
-         "Scope bound on alphabet and lengths; layer 2 (end-to-end on the wire) is added by later revisions.", "DESIGN.md §4 C01"),
+         "Layer 1: for every layout of a table with <=3 (thorough <=4) split points over a 5-6 symbol alphabet, every subset of its regions cached, six neighbouring tables (prefix names, namespaces) and every key of length <=3 (plus keys around the 32 KiB search-key truncation), the real cache lookup is compared with the unique containing cached region of the same table (else: must go to meta). ~10^8 lookups quick; plus layer 2 (end to end on the wire, tier W): every ordered pair of 12 keys x 7 request kinds (get, put, delete, append, increment, check-and-put, batch) x 7-16 layouts of three tables on two servers - the simulated servers must never see a request for a region they do not own, and a key inside a known region must cause no meta lookup, any other exactly one.",
+         "Scope bound on alphabet and lengths; default thread schedule in layer 2.", "DESIGN.md §4 C01"),
  "C03": ("fault_enumeration",
          "stateless model checking of the real region client: fault-position enumeration x server misbehaviours x all schedules up to a deviation bound (controlled scheduler, virtual time)",
          "For 4 call mixes, every connection-operation index k is faulted in turn (partial writes included), every server misbehaviour is injected at every frame, with/without an external Close(); each unit is explored over all schedules with <=1 (quick) / <=2 (thorough) deviations. Oracle: exactly one completion per live call (lost = caller blocked at quiescence, duplicate = deliverer blocked or result left in the channel), ServerError class, later calls refused at once, reader/writer threads gone.",
@@ -83,8 +83,8 @@ CLAIMED = {
  # id: (level, technique, text, note, design_ref)
  "C16": ("exploration",
          "exhaustive small-scope enumeration (all pairs/triples of region names in a bounded alphabet) against a tuple-order oracle",
-         "Every ordered pair of ~2.6k (quick) / ~10k (thorough) well-formed region names and every triple of a 160-name subset is compared with the real comparator and with a component-wise (table,start,id) oracle; search keys 'table,key,:' are compared against every name. Exhaustive within the stated alphabet and key length, which is where comparator mistakes live (bytes around ',' and unequal lengths).",
-         "Scope bound: start keys <=2/<=3 bytes over {00,'+',',','-','a',ff}; well-formed names only.", "DESIGN.md §4 C16"),
+         "Every ordered pair of ~9k (quick) / ~23k (thorough) well-formed region names and every triple of a 160-name subset is compared with the real comparator and with a component-wise (table,start,id) oracle; search keys 'table,key,:' are compared against every name. Exhaustive within the stated alphabet and key length, which is where comparator mistakes live (bytes around ',' and unequal lengths).",
+         "Scope bound: start keys <=3 bytes over a 6 (thorough 8) symbol alphabet; well-formed names only.", "DESIGN.md §4 C16"),
 }
 FIX_COMMITS = ["0da2129", "62252c5", "effb93f", "0cef440", "27c75df", "f573f90", "137cea9", "fa68402", "74e6ab5", "ffdcfd8", "dc24a9a", "6fcb5bf", "0fa34d5", "6c1c1ad", "7f1a30c", "182fbfa", "4bf0000", "ea56d2b"]
 NA_REASONS = {}
